@@ -145,3 +145,15 @@ def replay(scenario, sources, path, validate=None):
             print("model rejects:", r)
         return 1 if rejects else 0
     return 1 if rc else 0
+
+
+def protocol_reject_is_failure(rj):
+    """For protocol automata whose guards are the property's own clauses (Model.Mutex, Model.WaitList, Model.Cond: the
+    lock is released only by its holder, a waiter is queued under the lock that releases the mutex, a timed-out waiter
+    consumes no signal ...): an execution of the real code that the automaton rejects is a history on which such a clause
+    fails.  Used by the failing-input search (vs.campaign reject_is_failure)."""
+    r = rj.get("reject", "")
+    if not r.startswith("REJECT"):
+        return None
+    return "execution of the real code leaves the specification automaton %s (%s): %s" % (
+        rj.get("model", "?"), rj.get("object", ""), r[:300])
